@@ -118,4 +118,13 @@ TEXTS = {
                     "posting positions < len). An undischarged site is a violation (fail closed). This is a proof over all inputs "
                     "and histories relative to the trusted base listed in the evidence.",
             "note": NOTE + " Additionally trusted: std semantics of range indexing, Vec::extend and enumerate as stated in evidence."},
+    "C01": {"technique": "static analysis: lock-order style RefCell guard analysis over the call graph, unsigned-subtraction discharge in a linear-inequality domain, explicit-panic inventory, table obligations, bounds obligations",
+            "text": "Decides structural clauses soundly over all paths: no call executed while a RefCell guard is live can reach a "
+                    "conflicting borrow (15 cells, 23 sites); every reachable unsigned subtraction is proved non-negative from "
+                    "guards / loop indices / counter induction / std lemmas, is the padding difference (no reduction shrinks), or is "
+                    "a difference of tokeniser geometry fields assumed by C15; no float-derived unsigned subtraction (found D1, "
+                    "fixed); every reachable explicit panic is a registry-contract check, a debug assertion whose condition is "
+                    "implied by another rule, or discharged; unchecked accesses as in C19. Termination, overflow near usize::MAX "
+                    "and slice-index panics beyond these rules are not decided.",
+            "note": NOTE},
 }
